@@ -84,8 +84,34 @@ def hostile_data(draw: Any) -> dict[str, Any]:
     return data
 
 
+EXTRA_SEEDS = [
+    "{% translate %}Hello, {{ you }}!{% endtranslate %}",
+    "{% translate count: n, you: 'W' %}one {{ you }}{% plural %}{{ count }} {{ you }}s{% endtranslate %}",
+    "{% translate context: 'greeting' %}Hi{% endtranslate %}{{ 'x' | t: 'ctx', plural: 'xs', count: n }}",
+    "{{ 'Hello %(you)s' | gettext: you: x }}{{ 'a' | ngettext: 'b', n }}{{ 'a' | pgettext: 'c' }}{{ 'a' | npgettext: 'c', 'b', n }}",
+    "{% macro m a, b: 2 %}{{ a }}{{ b }}{{ args }}{{ kwargs }}{% endmacro %}{% call m 1, 2, 3, x: 4 %}",
+    "{% with a: 1, b: x %}{{ a }}{{ b }}{% endwith %}",
+    "{% extends 'base' %}{% block a %}{{ block.super }}X{% endblock a %}",
+    "{% block a required %}{% endblock %}{% block b %}{% block c %}{% endblock %}{% endblock b %}",
+    "{% tablerow i in x cols: 2 limit: 3 offset: 1 %}{{ tablerowloop.col }}{{ i }}{% endtablerow %}",
+    "{{ x | map: i => i.a | where: (i, j) => j < 2 | sort: i => i | sum }}",
+    "{{ a if b else c | upcase || append: 'x' | default: nil, allow_false: true }}",
+    "{{ \"a${b | upcase}c${ \"n${d}\" }\" }}{{ 'it\\'s \\u00e9 \\${x}' }}",
+    "{% liquid\n  assign a = 1, 2, 3\n  for i in a reversed\n    echo i | times: 2\n  endfor\n  # c\n  comment\n  x\n  endcomment\n%}",
+    "{% for i in (1..n) limit: 2 offset: continue %}{{ forloop.parentloop.index }}{% break %}{% else %}e{% endfor %}",
+    "{% case x %}{% when 1, 2 or 3 %}a{% when 'b' %}b{% else %}c{% endcase %}{% cycle 'g': 1, 2 %}{% increment c %}{% decrement c %}",
+    "{% capture c %}{% raw %}{{ x }}{% endraw %}{# c #}{% # i %}{% comment %}{% endcomment %}{% endcapture %}{{ c }}",
+    "{% include 'a' with x as y, z: 1 %}{% render 'b' for y as i, k: 2 %}{% include n %}",
+    "{{ (1..3) | join: ',' }}{{ a['b c'].d[e.f][0] }}{{ ['x y'] }}{{ x.size }}{{ x.first.last }}",
+    "{% if a == empty or b != blank and not (c contains 'x' or d in e) %}{% elsif f <= 1.5e3 %}{% endif %}",
+    "{% unless a %}{% elsif b %}{% else %}{% endunless %}{% echo x | date: '%Y' | json: 2 %}",
+    "{{ n | money }}{{ n | currency: group_separator: false }}{{ x | datetime: format: 'short' }}{{ n | decimal }}{{ n | unit: 'length-meter' }}",
+    "{{ s | base64_encode | base64_decode }}{{ s | base64_url_safe_encode | base64_url_safe_decode }}",
+]
+
+
 def _corpus_sources() -> list[dict[str, Any]]:
-    return corpus()
+    return corpus() + [{"template": t, "data": {}} for t in EXTRA_SEEDS]
 
 
 @st.composite
